@@ -1,6 +1,6 @@
 (* C02 - all text handed out is well-formed UTF-8, whatever bytes arrive. Statements only. *)
 From EC Require Import Base Model.Utf8 Model.Input Model.Editor Model.Args Model.History Model.Cli Spec.Utf8Spec Spec.QuoteSpec Spec.ArgSpec Spec.HistSpec
-  Proofs.Utf8Proofs Proofs.InputProofs Proofs.UtilsProofs Proofs.ArgsProofs Proofs.TokenProofs Proofs.TokenValid Proofs.HistoryProofs Proofs.SafetyProofs.
+  Proofs.Utf8Proofs Proofs.InputProofs Proofs.UtilsProofs Proofs.ArgsProofs Proofs.TokenProofs Proofs.TokenValid Proofs.HistoryProofs Proofs.SafetyProofs Proofs.OutputValid.
 
 (* (1) every string the accumulator hands out is one well-formed scalar, for every byte sequence *)
 Theorem C02_char_wf : forall bs, bytes bs -> Forall wf_char (snd (run acc0 bs)).
@@ -50,6 +50,17 @@ Print Assumptions C02_tokens_valid.
 Theorem C02_args_valid : forall ts, Forall valid_tok ts -> exists items, args_of ts = Some items /\ Forall arg_valid items.
 Proof. intros ts H. exists (classify_all false ts). split; [apply args_classified, H|apply classify_all_valid, H]. Qed.
 Print Assumptions C02_args_valid.
+
+(* every echo: EVERY slice the Cli hands to the sink (echo of typed characters, redraws of the line, completions, recalled lines, prompts,
+   error and help texts, handler output) is well-formed UTF-8 - for every byte stream, every sequence of API calls, every sink
+   behaviour (failing or not), every buffer size - provided the texts that come from outside are: the prompts, what the application
+   writes, and what the command set supplies (names, help and error texts; env_valid). Nothing typed can make the library emit an
+   ill-formed sequence. *)
+Theorem C02_output_valid : forall okf feats cs handler, cmdset_ok cs -> env_valid cs handler -> forall cap hcap pr calls,
+  valid_tok pr -> Forall (vcall_valid) calls ->
+  Forall wvalid (Sink.out (sk (fst (api_run okf feats cs handler (snd (api_build okf (cli_init cap hcap pr))) calls)))).
+Proof. exact output_valid. Qed.
+Print Assumptions C02_output_valid.
 
 Example C02_nonvacuous : snd (run acc0 [0xC0; 0x80; 0xED; 0xA0; 0x80; 0xF5; 0x80; 0xE2; 0x82; 0xE2; 0x82; 0xAC; 0x41]) = [[0xE2; 0x82; 0xAC]; [0x41]].
 Proof. vm_compute. reflexivity. Qed.
